@@ -118,36 +118,36 @@ var nondetPkgs = []string{"math/rand", "math/rand/v2", "crypto/rand", "hash/maph
 
 // calls of these external functions are not sources (pure or output sinks)
 var nondetAllowedFuncs = map[string]string{
-	"time.Duration.String":       "pure",
-	"(time.Duration).String":     "pure",
-	"(time.Time).Before":         "pure comparison of two time values",
-	"(time.Time).After":          "pure comparison of two time values",
-	"(time.Time).Add":            "pure",
-	"(time.Time).Format":         "pure",
-	"(time.Duration).Seconds":    "pure",
-	"os.Create":                  "output sink (debug visualisation file), result does not steer generation",
-	"(*os.File).Close":           "output sink",
-	"(*os.File).Write":           "output sink",
-	"(*os.File).WriteString":     "output sink",
-	"runtime.Callers":            "traceback capture: feeds error identity (same code path ⇒ same frames), never a draw",
-	"runtime.CallersFrames":      "traceback capture",
-	"(*runtime.Frames).Next":     "traceback capture",
-	"runtime.KeepAlive":          "no effect on values",
+	"time.Duration.String":    "pure",
+	"(time.Duration).String":  "pure",
+	"(time.Time).Before":      "pure comparison of two time values",
+	"(time.Time).After":       "pure comparison of two time values",
+	"(time.Time).Add":         "pure",
+	"(time.Time).Format":      "pure",
+	"(time.Duration).Seconds": "pure",
+	"os.Create":               "output sink (debug visualisation file), result does not steer generation",
+	"(*os.File).Close":        "output sink",
+	"(*os.File).Write":        "output sink",
+	"(*os.File).WriteString":  "output sink",
+	"runtime.Callers":         "traceback capture: feeds error identity (same code path ⇒ same frames), never a draw",
+	"runtime.CallersFrames":   "traceback capture",
+	"(*runtime.Frames).Next":  "traceback capture",
+	"runtime.KeepAlive":       "no effect on values",
 }
 
 // package-level variables of the analysed package that may be read while generating, with reasons
 var globalReadAllowed = map[string]string{
-	"flags":              "process-constant configuration written only by package flag during flag.Parse",
-	"expandedTables":     "sync.Map memo: value is a deterministic function of the key",
-	"compiledRegexps":    "sync.Map memo: value is a deterministic function of the key",
-	"regexpNames":        "sync.Map memo: value is a deterministic function of the key",
-	"charClassGens":      "sync.Map memo: value is a deterministic function of the key",
-	"anyRuneGen":         "initialised once at package init, immutable generator",
-	"anyRuneGenNoNL":     "initialised once at package init, immutable generator",
-	"defaultRunes":       "init-only table",
-	"defaultTables":      "init-only table",
-	"integerKindToInfo":  "init-only table",
-	"tracebackBlacklist": "init-only table, read by traceback capture only",
+	"flags":                "process-constant configuration written only by package flag during flag.Parse",
+	"expandedTables":       "sync.Map memo: value is a deterministic function of the key",
+	"compiledRegexps":      "sync.Map memo: value is a deterministic function of the key",
+	"regexpNames":          "sync.Map memo: value is a deterministic function of the key",
+	"charClassGens":        "sync.Map memo: value is a deterministic function of the key",
+	"anyRuneGen":           "initialised once at package init, immutable generator",
+	"anyRuneGenNoNL":       "initialised once at package init, immutable generator",
+	"defaultRunes":         "init-only table",
+	"defaultTables":        "init-only table",
+	"integerKindToInfo":    "init-only table",
+	"tracebackBlacklist":   "init-only table, read by traceback capture only",
 	"windowsReservedNames": "init-only table",
 }
 
